@@ -144,7 +144,7 @@ func (ctx *Ctx) frameObligation(vc *VC, fr *Frame, fc *FuncContract, exit *State
 					hi = vc.toIndex(v.T, v.Ty)
 				}
 			}
-			addr = RefAdd(SBase(x.T), Mul(lo, IntLit(vc.tt.Slots(sl.Elem()))))
+			addr = ElemAddr(SBase(x.T), lo, vc.tt.Slots(sl.Elem()))
 			t = sl.Elem()
 			count = Sub(hi, lo)
 		} else {
@@ -186,6 +186,46 @@ func (ctx *Ctx) frameObligation(vc *VC, fr *Frame, fc *FuncContract, exit *State
 		allowed := Or(per[s]...)
 		body := Implies(And(Lt(Rid(q), fr.entry.alloc), Not(allowed)), Eq(Select(h1, q), Select(h0, q)))
 		conj = append(conj, Term{fmt.Sprintf("(forall ((q!r Ref)) %s)", body.S), SBool})
+	}
+	if !fc.ModifiesMaps {
+		var mk []string
+		for k := range exit.maps {
+			mk = append(mk, k)
+		}
+		sort.Strings(mk)
+		for _, key := range mk {
+			parts := strings.SplitN(key, "|", 3)
+			var h0, h1 Term
+			if key == "len" {
+				h0, h1 = vc.mapHeap(fr.entry, "len", "", ""), vc.mapHeap(exit, "len", "", "")
+			} else {
+				h0, h1 = vc.mapHeap(fr.entry, parts[0], Sort(parts[1]), Sort(parts[2])), vc.mapHeap(exit, parts[0], Sort(parts[1]), Sort(parts[2]))
+			}
+			if h0.S == h1.S {
+				continue
+			}
+			conj = append(conj, Term{fmt.Sprintf("(forall ((q!i Int)) (=> (< q!i %s) (= (select %s q!i) (select %s q!i))))", fr.entry.alloc.S, h1.S, h0.S), SBool})
+		}
+	}
+	// ghost variables not listed under assigns keep their value
+	assigned := map[string]bool{}
+	for _, g := range fc.Assigns {
+		assigned[g] = true
+	}
+	var gk []string
+	for k := range exit.ghost {
+		gk = append(gk, k)
+	}
+	sort.Strings(gk)
+	for _, k := range gk {
+		if !strings.HasPrefix(k, "gv!") || assigned[k[3:]] {
+			continue
+		}
+		if gv := ctx.ghostVars[k[3:]]; gv != nil {
+			g0, _, _ := vc.ghostVar(fr.entry, gv)
+			g1, _, _ := vc.ghostVar(exit, gv)
+			conj = append(conj, Eq(g1, g0))
+		}
 	}
 	if len(conj) == 0 {
 		return
